@@ -21,7 +21,7 @@ EXPLANATION = (
     "templates every return and every Exception exit after the run-start emission passes exactly one run-end emission, the error path passes the "
     "handled error and the normal path does not; (R3) dispatcher shutdown sits in a finally guarded by 'top-level call', and every internal run/map "
     "call hands down a parent span; (R4) the node span id is published to the executor closure with no suspension point in between, in both runners; "
-    "(R5) nothing observable happens before input validation; (R6) a step's gather waits for all siblings."
+    "(R5) nothing observable happens before input validation; (R6) a step's gather waits for all siblings. R5 also requires that every option check run() applies up front to a parameter map() forwards unchanged is applied by map() itself before the map-level span is opened; R6 extends to every gather of the runners: it collects exceptions, or no explicit raise escapes from the gathered coroutines (followed into sibling closures)."
 )
 NOT_DECIDED = "Timestamps and payload fields of events beyond span ids/status; that processors see events in wall-clock order across concurrently running siblings; paused runs (emit no RunEnd by design)."
 
